@@ -335,6 +335,11 @@ func (t *timestampOracle) UpdateTimestamp(leadership *election.Leadership) error
 
 	// It is not safe to increase the physical time to `next`.
 	// The time window needs to be updated and saved to etcd.
+	// The window check, the save and the memory update are done under the TSO lock,
+	// like resetUserTimestamp does, so that a concurrent reset cannot have its larger
+	// window overwritten by this (older, smaller) one.
+	t.tsoMux.Lock()
+	defer t.tsoMux.Unlock()
 	if typeutil.SubRealTimeByWallClock(t.lastSavedTime.Load().(time.Time), next) <= UpdateTimestampGuard {
 		save := next.Add(t.saveInterval)
 		if err := t.saveTimestamp(leadership, save); err != nil {
@@ -342,8 +347,12 @@ func (t *timestampOracle) UpdateTimestamp(leadership *election.Leadership) error
 			return err
 		}
 	}
-	// save into memory
-	t.setTSOPhysical(next)
+	// save into memory, make sure the ts won't fall back
+	if typeutil.SubTSOPhysicalByWallClock(next, t.tsoMux.physical) > 0 {
+		t.tsoMux.physical = next
+		t.tsoMux.logical = 0
+		t.setTSOUpdateTimeLocked(time.Now())
+	}
 
 	return nil
 }
